@@ -1,6 +1,9 @@
 from vlib import runner, sysprops
 
-PARTIAL = ['cascade over service chains (depth 2-3): by induction from C03 + this property; exercised end-to-end only by the C07 chain family']
+PARTIAL = [
+    'cascade over service chains (depth 2-3): proved on the abstract chain model by induction; the real chains are exercised by the chain family only',
+    "id re-use right after a cancellation/expiry while the first handler's response is still buffered is outside the quantifier and exempted",
+]
 
 
 def run(tier, seed, replay):
